@@ -22,7 +22,9 @@ META = {
             "quiescent point a side whose sent or received counters reached a threshold has sent KEXINIT; no side "
             "starts an exchange below the thresholds (counters restarted); all payload arrives intact and in order; "
             "a peer that ignores KEXINIT and keeps sending is dropped with the 'ignoring rekey requests' error "
-            "once the allowance is used up and not before.",
+            "once the allowance is used up and not before. Also with every packet delivered in two fragments with receive "
+            "time-outs in between, and with compression negotiated (zlib@openssh.com / zlib: histories up to depth "
+            "2/3 + long runs that cross the packet threshold repeatedly).",
     "note": "scaled REKEY_* constants are a configuration of the real counting code; response clauses judged at "
             "quiescence with timers allowed to fire; no bound on packets a busy sender may squeeze in before its "
             "transport thread reacts",
@@ -98,11 +100,18 @@ EVENTS = ["c3000", "s3000", "c8x200", "s8x200", "idle"]
 UNK = ["c8xunk", "s8xunk"]
 
 
-def run_history(hist, refusing=False, frag=None):
+def run_history(hist, refusing=False, frag=None, compress=None):
     """frag=k: every packet on the wire is delivered as a k-byte fragment, a pause of 0.25 virtual seconds (two
     receive time-outs), then the rest - the environment answers of recv() while a re-key may be pending."""
     def body(s):
         p = F.Pair(packetizer=Scaled, server_packetizer=Unscaled if refusing else Scaled)
+        if compress:
+            # delayed (zlib@openssh.com, what use_compression() prefers) or immediate (zlib) compression: both
+            # directions restart their compression state with every new set of keys
+            p.tc.use_compression(True)
+            p.ts.use_compression(True)
+            if compress == "zlib":
+                p.tc._preferred_compression = p.ts._preferred_compression = ("zlib", "none")
         p.up()
         c, sv = p.session()
         s.quiesce()
@@ -268,7 +277,8 @@ def run_items(items, acc):
     for kind, hist in items:
         frag = int(kind.split("/frag")[1]) if "/frag" in kind else None
         kind0 = kind.split("/")[0]
-        ex = run_history(list(hist), refusing=(kind0 == "refusing"), frag=frag)
+        comp = "zlib" if kind.endswith("/zlib") else ("zlib@openssh.com" if kind.endswith("/zlib@openssh.com") else None)
+        ex = run_history(list(hist), refusing=(kind0 == "refusing"), frag=frag, compress=comp)
         acc.ev()
         acc.validated += 1
         acc.transitions += len(hist)
@@ -325,7 +335,14 @@ def main(tier):
         for ev in EVENTS[:4]:
             fr.append(("honest/frag%d" % k, (ev,) * (4 if tier == "quick" else 7)))
         fr.append(("refusing/frag%d" % k, ("s3000",) * 11))
-    items = hon + ref + fr
+    # compression negotiated (thresholds count what goes over the wire): every history of depth <= 2/3 and the long runs
+    zl = []
+    for comp in ("zlib@openssh.com", "zlib"):
+        zl += [("honest/" + comp, h) for h in enum.sequences(EVENTS, 2 if tier == "quick" else 3, 1)]
+        for ev in EVENTS[:4]:
+            zl.append(("honest/" + comp, (ev,) * (9 if tier == "quick" else 14)))
+    ck.extra["compressed_histories"] = len(zl)
+    items = hon + ref + fr + zl
     ck.extra["fragmented_delivery_histories"] = len(fr)
     ck.extra["honest_histories"] = len(hon)
     ck.extra["refusing_peer_histories"] = len(ref)
@@ -340,8 +357,9 @@ def replay(rec):
     r = rec["replay"]
     kind = r["kind"]
     frag = int(kind.split("/frag")[1]) if "/frag" in kind else None
+    comp = "zlib" if kind.endswith("/zlib") else ("zlib@openssh.com" if kind.endswith("/zlib@openssh.com") else None)
     r = dict(r, kind=kind.split("/")[0])
-    ex = run_history(list(r["history"]), refusing=(r["kind"] == "refusing"), frag=frag)
+    ex = run_history(list(r["history"]), refusing=(r["kind"] == "refusing"), frag=frag, compress=comp)
     print(ex.outcome, ex.error)
     if ex.outcome != "ok":
         return 1
